@@ -592,6 +592,18 @@ func runRounds(p *roundsPlan, schedSeed uint64, replay []simrt.Choice, lenient, 
 			obs.rounds[len(obs.rounds)-1].extraErr = "left over after the last round: " + describePkg(pkg)
 			break
 		}
+		// a poll picks at random between "nothing ready" and a queued error: look once more with a blocking
+		// receive under a one-millisecond deadline
+		if last := &obs.rounds[len(obs.rounds)-1]; last.extraErr == "" && !p.Rounds[len(p.Rounds)-1].Truncated {
+			sctx, scancel := simrt.WithTimeout(ctx, time.Millisecond)
+			pkg, err := ch.NextPackage(sctx, true)
+			scancel()
+			if err == nil {
+				last.extraErr = "left over after the last round: " + describePkg(pkg)
+			} else if !simrt.IsSimCtxErr(err) {
+				last.extraErr = "after the last round: " + err.Error()
+			}
+		}
 	})
 	return obs, out
 }
